@@ -4,7 +4,10 @@
 
    Sources:
      internal/concat.go      ConcatItems on strings (concatStrings) and on map[string]any
-                             (concatMaps: per key, values in arrival order)
+                             (concatMaps: per key, values in arrival order; a value that is a
+                             map again — map[string]any, map[string]string, ... — is
+                             concatenated the same way, recursively; values of different
+                             types under one key are an error)
      compose/utils.go 28-90  mergeMap (duplicated key = error) / mergeValues (streams: merge)
      compose/graph_run.go 813-833  copyItem
      compose/stream_reader.go withKey, compose/generic_helper.go defaultStreamMapFilter
@@ -13,50 +16,131 @@
                              source's own order; StreamReaderWithConvert = item-wise map
                              that passes error items through and drops ErrNoValue
 
-   Chunk universe: strings and flat maps string -> string (a Go map[string]any whose values
-   are strings).  Map keys are numbers < 676 here and two-letter strings in Go ([key_str]).
-   Maps are association lists kept sorted by key by construction ([ins]); a key that occurs
-   twice in a list read as chunk entries means "the values in that order" — exactly what
-   concatMaps does with the same key in several chunks. *)
+   Chunk universe: strings, and maps from strings to strings or to maps again, to any depth
+   (a Go map[string]any whose values are strings, map[string]string or map[string]any).
+   A map is represented by the list of its entries in flattened form: the key of an entry
+   is the path of map keys that leads to it, ending in [KStr] (a string sits here: the
+   entry's value) or in [KMap] (a map sits here — written for every nested map, empty or
+   not; the entry's value is the empty string).  {x: {a: "1", b: "2"}, y: "3"} is
+       [ (x,KMap) ""; (x,a,KStr) "1"; (x,b,KStr) "2"; (y,KStr) "3" ].
+   Whether a Go map is a map[string]any or a map[string]string is not represented: the
+   concatenation of chunks does not depend on it.
+   Map keys are numbers < 676 here and two-letter strings in Go ([key_str]).  Maps are kept
+   sorted by key by construction ([ins]); a key that occurs twice in a list read as chunk
+   entries means "the values in that order" — exactly what concatMaps does with the same
+   key (path) in several chunks. *)
 From Eino Require Import Base.Util Model.Paradigm.
 
-Definition amap : Type := list (N * string).
+(* the rest of a path below a top-level key *)
+Inductive key : Type :=
+| KMap                      (* a map sits here *)
+| KStr                      (* a string sits here *)
+| KSub (k : N) (r : key).   (* further down, under key k *)
+
+(* the key of an entry of a (top-level) map: the first map key and the rest of the path *)
+Definition tkey : Type := (N * key)%type.
+
+(* KMap < KStr < KSub; KSub by key number, then by the rest *)
+Fixpoint kcmp (a b : key) : comparison :=
+  match a, b with
+  | KMap, KMap => Eq
+  | KMap, _ => Lt
+  | KStr, KMap => Gt
+  | KStr, KStr => Eq
+  | KStr, KSub _ _ => Lt
+  | KSub _ _, KMap => Gt
+  | KSub _ _, KStr => Gt
+  | KSub k r, KSub k' r' => match N.compare k k' with Eq => kcmp r r' | c => c end
+  end.
+
+Definition tcmp (a b : tkey) : comparison :=
+  match N.compare (fst a) (fst b) with Eq => kcmp (snd a) (snd b) | c => c end.
+
+Definition tltb (a b : tkey) : bool := match tcmp a b with Lt => true | _ => false end.
+Definition teqb (a b : tkey) : bool := match tcmp a b with Eq => true | _ => false end.
+
+Definition amap : Type := list (tkey * string).
 
 Inductive val : Type :=
 | VS (s : string)
 | VM (m : amap).
 
+(* the key of the string stored under the top-level key k *)
+Definition kstr (k : N) : tkey := (k, KStr).
+
 (* insert (k, v) into a map: a new key goes to its sorted place, an existing key gets v
    appended to its value (string concatenation of chunks of that key) *)
-Fixpoint ins (k : N) (v : string) (m : amap) : amap :=
+Fixpoint ins (k : tkey) (v : string) (m : amap) : amap :=
   match m with
   | [] => [(k, v)]
   | (k', v') :: m' =>
-      if N.ltb k k' then (k, v) :: m
-      else if N.eqb k k' then (k', String.append v' v) :: m'
+      if tltb k k' then (k, v) :: m
+      else if teqb k k' then (k', String.append v' v) :: m'
       else (k', v') :: ins k v m'
   end.
 
 Definition ins_all (es : amap) (m : amap) : amap :=
   fold_left (fun acc e => ins (fst e) (snd e) acc) es m.
 
-Fixpoint mhas (k : N) (m : amap) : bool :=
+Fixpoint mhas (k : tkey) (m : amap) : bool :=
   match m with
   | [] => false
-  | (k', _) :: m' => N.eqb k k' || mhas k m'
+  | (k', _) :: m' => teqb k k' || mhas k m'
   end.
 
 (* every value stored under k, in order *)
-Fixpoint mgather (k : N) (m : amap) : string :=
+Fixpoint mgather (k : tkey) (m : amap) : string :=
   match m with
   | [] => EmptyString
-  | (k', v) :: m' => if N.eqb k k' then String.append v (mgather k m') else mgather k m'
+  | (k', v) :: m' => if teqb k k' then String.append v (mgather k m') else mgather k m'
   end.
 
-Definition mlookup (k : N) (m : amap) : option string :=
+Definition mlookup (k : tkey) (m : amap) : option string :=
   if mhas k m then Some (mgather k m) else None.
 
-Definition mkeys (m : amap) : list N := map fst m.
+Definition mkeys (m : amap) : list tkey := map fst m.
+
+(* the top-level keys of the entries *)
+Definition mheads (m : amap) : list N := map (fun e => fst (fst e)) m.
+
+(* some entry sits under the top-level key k *)
+Definition hd_has (k : N) (m : amap) : bool := existsb (fun e => N.eqb k (fst (fst e))) m.
+
+(* ---------------------------------------------------------------- nesting *)
+(* the entries of a map put under the key k of an enclosing map *)
+Definition nestk (k : N) (e : tkey * string) : tkey * string :=
+  ((k, KSub (fst (fst e)) (snd (fst e))), snd e).
+
+Definition nest (k : N) (m : amap) : amap := ((k, KMap), EmptyString) :: map (nestk k) m.
+
+(* the entries of the map that sits under the key k (without its own marker) *)
+Definition sub_of (k : N) (e : tkey * string) : list (tkey * string) :=
+  match fst e with
+  | (k', KSub a r) => if N.eqb k k' then [((a, r), snd e)] else []
+  | _ => []
+  end.
+
+Definition unnest (k : N) (m : amap) : amap := flat_map (sub_of k) m.
+
+(* ---------------------------------------------------------------- type conflicts *)
+(* two paths clash when one says "a string sits here" and the other "a map sits here" (or
+   goes on below that place): the values under that key have different types, which
+   concatMaps rejects ("unexpected slice element type") *)
+Fixpoint clash (a b : key) : bool :=
+  match a, b with
+  | KStr, KMap | KMap, KStr => true
+  | KStr, KSub _ _ | KSub _ _, KStr => true
+  | KSub k r, KSub k' r' => N.eqb k k' && clash r r'
+  | _, _ => false
+  end.
+
+Definition tclash (a b : tkey) : bool := N.eqb (fst a) (fst b) && clash (snd a) (snd b).
+
+(* no two entries clash *)
+Definition cons_keys (ks : list tkey) : bool :=
+  forallb (fun a => forallb (fun b => negb (tclash a b)) ks) ks.
+
+Definition mcons (m : amap) : bool := cons_keys (mkeys m).
 
 (* all chunks strings / all chunks maps *)
 Fixpoint all_str (xs : list val) : option (list string) :=
@@ -74,14 +158,19 @@ Fixpoint all_map (xs : list val) : option (list amap) :=
   end.
 
 (* internal.ConcatItems at the two static chunk types of the harness.  A list mixing the
-   two cannot exist in Go (static typing); the model answers with the distinguished e_type. *)
+   two cannot exist in Go (static typing); the model answers with the distinguished e_type,
+   as it does when the values under one key have different types. *)
 Definition vconcat (xs : list val) : res val :=
   match xs with
   | [] => Err e_empty
   | VS _ :: _ =>
       match all_str xs with Some ss => Ok (VS (concat_strings ss)) | None => Err e_type end
   | VM _ :: _ =>
-      match all_map xs with Some ms => Ok (VM (ins_all (List.concat ms) [])) | None => Err e_type end
+      match all_map xs with
+      | Some ms => let m := ins_all (List.concat ms) [] in
+                   if mcons m then Ok (VM m) else Err e_type
+      | None => Err e_type
+      end
   end.
 
 (* concatStreamReader at these chunk types *)
@@ -93,14 +182,20 @@ Definition vsconcatR (r : res (stream val)) : res val := sconcatR vconcat r.
 (* outputKeyedComposableRunnable.i : map[string]any{key: out} *)
 Definition v_withKey (k : N) (x : val) : res val :=
   match x with
-  | VS s => Ok (VM [(k, s)])
-  | VM _ => Err e_type            (* nested maps are outside the modelled universe *)
+  | VS s => Ok (VM [(kstr k, s)])
+  | VM m => Ok (VM (nest k m))
   end.
+
+(* what sits under the key k of a map: a string, a map, nothing *)
+Definition m_get (k : N) (m : amap) : option val :=
+  if mhas (kstr k) m then Some (VS (mgather (kstr k) m))
+  else if hd_has k m then Some (VM (ins_all (unnest k m) []))
+  else None.
 
 (* inputKeyedComposableRunnable.i : input.(map[string]any)[key], error if absent *)
 Definition v_getKey (k : N) (x : val) : res val :=
   match x with
-  | VM m => match mlookup k m with Some s => Ok (VS s) | None => Err e_nokey end
+  | VM m => match m_get k m with Some v => Ok v | None => Err e_nokey end
   | VS _ => Err e_type
   end.
 
@@ -108,12 +203,12 @@ Fixpoint disjoint_keys (seen : list N) (ms : list amap) : bool :=
   match ms with
   | [] => true
   | m :: ms' =>
-      forallb (fun k => negb (existsb (N.eqb k) seen)) (mkeys m)
-      && disjoint_keys (mkeys m ++ seen) ms'
+      forallb (fun k => negb (existsb (N.eqb k) seen)) (mheads m)
+      && disjoint_keys (mheads m ++ seen) ms'
   end.
 
 (* channel get on fan-in: one value is passed on as it is, several are merged by
-   mergeValues -> mergeMap (maps only; a key present twice is an error) *)
+   mergeValues -> mergeMap (maps only; a top-level key present twice is an error) *)
 Definition v_merge (xs : list val) : res val :=
   match xs with
   | [] => Err e_empty
@@ -134,15 +229,15 @@ Definition s_copy (n : nat) (s : stream val) : list (stream val) := repeat s n.
 (* streamReader.withKey: item-wise map[string]any{key: chunk} *)
 Definition s_withKey (k : N) (s : stream val) : stream val :=
   map (fun it => match it with
-                 | Val (VS x) => Val (VM [(k, x)])
-                 | Val (VM _) => Bad e_type
+                 | Val (VS x) => Val (VM [(kstr k, x)])
+                 | Val (VM m) => Val (VM (nest k m))
                  | Bad e => Bad e
                  end) s.
 
 (* defaultStreamMapFilter: chunks that do not carry the key are dropped (ErrNoValue) *)
 Definition s_keyFilter (k : N) (s : stream val) : stream val :=
   flat_map (fun it => match it with
-                      | Val (VM m) => match mlookup k m with Some x => [Val (VS x)] | None => [] end
+                      | Val (VM m) => match m_get k m with Some x => [Val x] | None => [] end
                       | Val (VS _) => [Bad e_type]
                       | Bad e => [Bad e]
                       end) s.
@@ -176,7 +271,9 @@ Definition vconcat_any_v0 (_ : list val) : res val := Err e_type.
    becomes the zero value of the input type: "" / empty map).
    [FTo es]: the successor's input is a map; every entry (from, to) puts the predecessor's
    whole output (from = None: ToField) or its field `from` (MapFields) under key `to`.
-   [FTake a]: the successor's input is the predecessor's field a (FromField). *)
+   [FTake a]: the successor's input is the predecessor's field a (FromField).
+   Fields read one by one are string-valued (a field that holds a map is not read by the
+   mappings the harness builds; the model treats it like an absent one). *)
 Inductive fmap : Type :=
 | FTo (es : list (option N * N))
 | FTake (a : N).
@@ -188,9 +285,9 @@ Fixpoint fm_entries (strict : bool) (es : list (option N * N)) (x : val) : res a
   | [] => Ok []
   | (from, to) :: es' =>
       do e <- match from, x with
-              | None, VS s => Ok [(to, s)]
+              | None, VS s => Ok [(kstr to, s)]
               | Some a, VM m =>
-                  if mhas a m then Ok [(to, mgather a m)]
+                  if mhas (kstr a) m then Ok [(kstr to, mgather (kstr a) m)]
                   else if strict then Err e_nokey else Ok []
               | _, _ => Err e_type
               end;
@@ -198,10 +295,17 @@ Fixpoint fm_entries (strict : bool) (es : list (option N * N)) (x : val) : res a
       Ok (e ++ r)
   end.
 
+(* FromField: the string under the key a *)
+Definition v_getStr (a : N) (x : val) : res val :=
+  match x with
+  | VM m => match mlookup (kstr a) m with Some s => Ok (VS s) | None => Err e_nokey end
+  | VS _ => Err e_type
+  end.
+
 Definition v_fmap (f : fmap) (x : val) : res val :=
   match f with
   | FTo es => do r <- fm_entries true es x; Ok (VM (ins_all r []))
-  | FTake a => v_getKey a x
+  | FTake a => v_getStr a x
   end.
 
 Definition s_fmap (f : fmap) (s : stream val) : stream val :=
@@ -214,7 +318,7 @@ Definition s_fmap (f : fmap) (s : stream val) : stream val :=
                                  | _ => Bad e_type
                                  end
                      | FTake a => match x with
-                                  | VM m => Val (VS (mgather a m))
+                                  | VM m => Val (VS (mgather (kstr a) m))
                                   | VS _ => Bad e_type
                                   end
                      end
@@ -230,7 +334,7 @@ Definition fmap_from (f : fmap) : list N :=
 (* every key the mapping reads is there (the other case is finding F-C04c) *)
 Definition fmap_dom (f : fmap) (x : val) : bool :=
   match x with
-  | VM m => forallb (fun a => mhas a m) (fmap_from f)
+  | VM m => forallb (fun a => mhas (kstr a) m) (fmap_from f)
   | VS _ => true
   end.
 
@@ -291,6 +395,30 @@ Definition s_merge (mrg : list (stream val) -> stream val) (ss : list (stream va
   | _ => mrg ss
   end.
 
+(* an error item somewhere in the stream *)
+Definition has_bad {X} (s : stream X) : Prop := exists e, In (Bad e) s.
+
+(* a stream either carries an error item or its chunks concatenate: what every stream of a
+   graph run satisfies (a producer reports a failure by an error item, it does not emit
+   chunks that cannot be put together) *)
+Definition sound (s : stream val) : Prop := has_bad s \/ exists v, vsconcat s = Ok v.
+
 (* two-letter rendering of a key, shared with the Go harness *)
 Definition letter (n : N) : ascii := ascii_of_N (97 + n mod 26).
 Definition key_str (k : N) : string := String (letter (k / 26)) (String (letter k) EmptyString).
+
+(* rendering of a path: the keys joined by "." *)
+Fixpoint rest_str (r : key) : string :=
+  match r with
+  | KSub a r' => String "."%char (String.append (key_str a) (rest_str r'))
+  | _ => EmptyString
+  end.
+Definition tkey_str (k : tkey) : string := String.append (key_str (fst k)) (rest_str (snd k)).
+
+(* is this the marker of a nested map *)
+Fixpoint is_marker (r : key) : bool :=
+  match r with
+  | KMap => true
+  | KStr => false
+  | KSub _ r' => is_marker r'
+  end.
